@@ -164,6 +164,15 @@ def stats_extra(xpid, case, out, acc):
     tcploop.stats(case, out, acc)
 
 
+# ---------------------------------------------------------------- the close report itself (engine: extra_cases)
+# "Capacity is released exactly when a counted connection closes": the manager releases a slot when
+# `ProtocolSet::report_connection_closed` tells it. The c07 area drives that function with full / closed channels on
+# both sides (protocols AND manager); judged here are its verdicts about the manager's report (seeded change C06-g1:
+# `try_send` towards a full manager channel drops the report, the slot leaks).
+from . import cross as _cross  # noqa: E402
+_cross.install(globals(), "C07", "ProtocolSet close report, c07 area",
+               keep=lambda v: "manager" in v["msg"], count={"quick": 600, "thorough": 8000, "search": 1200})
+
 # ---------------------------------------------------------------- real nodes through the public API (engine: extra_cases)
 # `Litep2p::new` (src/lib.rs) and `ConfigBuilder` (src/config.rs) hand every protocol its configuration; the `node` area
 # (checks/node.py) builds real nodes, compares the registration record with the wiring model (Model/Node/Wiring.lean)
